@@ -287,6 +287,18 @@ class _SymSeq:
             return False
         return _eq_items(self.items[e - len(p):e], p)
 
+    def removeprefix(self, p: Any) -> Any:
+        n = len(self._sub_arg(p))
+        if n and self.startswith(p):
+            return self[n:]
+        return self[:]
+
+    def removesuffix(self, p: Any) -> Any:
+        n = len(self._sub_arg(p))
+        if n and self.endswith(p):
+            return self[:len(self.items) - n]
+        return self[:]
+
     def _is_ws(self, c: Any) -> Any:
         ws = (9, 10, 11, 12, 13, 32)
         if isinstance(c, int):
